@@ -201,6 +201,10 @@ func c03Judge(w *mon.W, c c03Case) {
 	}
 	// ---- laws over related calls ----
 	same := func(kind string, a, b mwOut, tolP float64, what string) {
+		if a.res != nil && b.res == nil {
+			w.Violate(kind, fmt.Sprintf("%s: the call succeeded with (U,P)=(%v,%.15g) but failed with %v after %s", cfg, a.res.U, a.res.P, b.err, what), c)
+			return
+		}
 		if a.res == nil || b.res == nil {
 			return
 		}
@@ -234,6 +238,14 @@ func c03Judge(w *mon.W, c c03Case) {
 		o, ok := c03Call(w, c, c.X2, c.X1, alt, "swapped")
 		sw[ai] = o
 		okAll = okAll && ok && o.res != nil
+	}
+	if !okAll {
+		for ai := range alts {
+			if outs[ai].res != nil && sw[ai].res == nil && (n1 != 0 && n2 != 0) {
+				w.Violate("swap-error", fmt.Sprintf("%s: the call succeeded but the swapped call failed with %v", cfg, sw[ai].err), c)
+				break
+			}
+		}
 	}
 	if okAll {
 		l, d, g := outs[0].res, outs[1].res, outs[2].res
@@ -311,6 +323,17 @@ func c03Pair(rng *mon.Rand, n1, n2, density int) ([]float64, []float64) {
 	case 0:
 		vals := incValues(rng, N)
 		p := rng.Perm(N)
+		if rng.Intn(4) == 0 {
+			// location shift: the first sample takes the top values, except
+			// for a few random exchanges (small and extreme p-values)
+			for i := range p {
+				p[i] = N - 1 - i
+			}
+			for k := rng.Intn(4); k > 0 && N > 1; k-- {
+				a, b := rng.Intn(N), rng.Intn(N)
+				p[a], p[b] = p[b], p[a]
+			}
+		}
 		x1, x2 := make([]float64, n1), make([]float64, n2)
 		for i := 0; i < n1; i++ {
 			x1[i] = vals[p[i]]
@@ -355,16 +378,13 @@ func c03Pair(rng *mon.Rand, n1, n2, density int) ([]float64, []float64) {
 	for i := range x2 {
 		x2[i] = pool()
 	}
-	if rng.Intn(3) == 0 { // shift one sample so that the location differs
-		s := rng.Norm()
-		_ = s
-		sort.Float64s(x1)
-	}
+	flipZeros(rng, x1)
+	flipZeros(rng, x2)
 	return x1, x2
 }
 
 func c03Run(r *mon.Run) {
-	r.Rule("sample pairs of sizes 0..400 on both sides of every exact/approximate switch-over (limit, limit+1 in either sample), tie densities none/low/high/all-equal/one-sample-constant, under the limit configurations default (50,25), (0,0), (5,3), (64,34); per pair 3 alternatives plus permuted, monotonically mapped and swapped calls; also the exhaustive N<=7 (tie vector x allocation) set under limits (0,0). Non-trivial = hits a (configuration x method) cell or an error/extreme class; distinct by hash of (x1,x2,limits).")
+	r.Rule("sample pairs of sizes 0..400 on both sides of every exact/approximate switch-over (limit, limit+1 in either sample), tie densities none/low/high/all-equal/one-sample-constant, under the limit configurations default (50,25), (0,0), (5,3), (64,34), (3,10) — ties limit above the untied limit —, (50,0); per pair 3 alternatives plus permuted, monotonically mapped and swapped calls; also the exhaustive N<=7 (tie vector x allocation) set under limits (0,0). Non-trivial = hits a (configuration x method) cell or an error/extreme class; distinct by hash of (x1,x2,limits).")
 	r.Assume("expected method decided by the oracle from (ties, n1, n2, current limits); exact reference as in C01; normal approximation evaluated with math.Erfc and, on a 2% sample, with the 384-bit Phi", "the two public limit variables are changed only between parallel sections and restored at the end (asserted)")
 	if err := ref.USelfTest(r.Pick(7, 8)); err != nil {
 		r.Inconclusive("reference self-test failed: " + err.Error())
@@ -372,7 +392,7 @@ func c03Run(r *mon.Run) {
 	}
 	defU, defT := stats.MannWhitneyExactLimit, stats.MannWhitneyTiesExactLimit
 	type cfg struct{ u, t int }
-	cfgs := []cfg{{defU, defT}, {0, 0}, {5, 3}, {64, 34}}
+	cfgs := []cfg{{defU, defT}, {0, 0}, {5, 3}, {64, 34}, {3, 10}, {defU, 0}}
 	for _, g := range cfgs {
 		name := fmt.Sprintf("limits(%d,%d)", g.u, g.t)
 		if g.u > 0 {
@@ -387,8 +407,8 @@ func c03Run(r *mon.Run) {
 		stats.MannWhitneyExactLimit, stats.MannWhitneyTiesExactLimit = g.u, g.t
 		class := fmt.Sprintf("pairs-limits(%d,%d)", g.u, g.t)
 		np := npairs
-		if g.t > defT {
-			np = npairs / 3 // the library's tied exact distribution is expensive beyond 25+25
+		if g.t > defT || ci >= 4 {
+			np = npairs / 3 // the library's tied exact distribution is expensive beyond 25+25; the last two configurations only vary which limit binds
 		}
 		r.Parallel(class, np, func(w *mon.W, i int) {
 			rng := w.Rng
